@@ -27,6 +27,12 @@ def main(argv=None):
     g.add_argument("inp")
     g.add_argument("outp")
     a = ap.parse_args(argv)
+    if a.cmd in ("check", "replay", "rungroup") and not (os.path.isdir(os.path.join(deps, "scipy")) and os.path.isdir(os.path.join(deps, "jsonschema"))):
+        # fresh clone: the private dependencies are installed from the offline wheelhouse on first use
+        from vtk import setup
+
+        if not setup.ensure_deps():
+            return 2
     if a.cmd == "check":
         from vtk import runner
 
